@@ -12,6 +12,61 @@ PROPS = {}
 NOT_YET = {}
 HOOK_COMMITS = ["1460123bcc5a44e72392e65465c5bd0c424ce6e9"]  # PrefixFileSet::verif_snapshot behind --cfg servlin_verif (src/log/prefix_file_set.rs, Cargo.toml check-cfg)
 
+PROPS["C12"] = dict(
+    suites=["c12t", "c12"],
+    shards={"c12t": 8, "c12": 4},
+    lean_modules=["ServlinVerif.Props.C12"],
+    audit="Audit/C12.lean",
+    rule="c12t: the real TokenSet driven exhaustively: every valid sequence up to depth 6 (thorough: 8) over {wait_token (only where a unit is free: it "
+         "blocks otherwise), wait_token_timeout(0), drop oldest, drop youngest} and up to depth 4 (6) over those plus {async_wait_token polled once, "
+         "stand-alone Token::new() dropped}, sizes 1..3 (and 4); each sequence runs in its own thread with a 3 s hang detector; afterwards the free "
+         "units are counted, then all live tokens dropped and the units counted again. c12: 24 (160) whole-server histories on loopback: max_conns 1..4, "
+         "2..3x as many concurrent clients with random start delays, each ending in one of {gate+200, gate+500, gate+handler panic, gate+dropped by "
+         "handler, malformed request, abort mid-head, abort mid-upload, keep-alive then close, two requests}, half of the histories dominated by one "
+         "kind; handlers block on a harness gate that records the number of simultaneously entered handlers; gates are held until min(max_conns, gated "
+         "clients) are inside, then opened one at a time; after the history max_conns fresh gated clients must all be inside simultaneously within 8 s. "
+         "Non-trivial = at least one take that had to fail / at least one connection ended abnormally.",
+    nontrivial=lambda tag, args, obs: ("O" in obs.split(" ")[0]) if tag == "c12t" else bool(re.search(r"[epdmau]", args[1])),
+    klass=lambda tag, args, obs: ("c12t:size=%s:len=%d" % (args[0], len(args[1]))) if tag == "c12t" else "c12:max_conns=%s:clients=%d" % (args[0], len(args[1])),
+    explanation="Model/Server.lean: TokenSet as (size, units in the channel, live tokens); the accept loop as a four-state machine, connection tasks as "
+                "a count, every way a connection can end as one event (its token is dropped). Theorems over all event sequences / API sequences: "
+                "C12_tokens (units + live = size, live <= size), C12_drop_returns (try_send never finds the channel full), C12_take_iff, "
+                "C12_limit (serving + the accept loop's slot <= max_conns), C12_conserved (free = max_conns - in use), C12_accept_failure_free, "
+                "C12_full_again (from any waiting state all free slots can be filled: max_conns serviced simultaneously).",
+    trusted=["safina sync_channel / std mpsc bounded channel semantics (try_send, recv), Drop running when a task ends, panics or is cancelled (Rust)",
+             "the gauge measures handlers inside the gate, i.e. connections being serviced in their handler; connections parked in read are bounded by the same tokens (model) but not observed by the gauge"],
+    assumptions=["accept failure by descriptor exhaustion (EMFILE) is proved on the model (C12_accept_failure_free) and not injected by the suite: lowering RLIMIT_NOFILE in-process needs libc, which the harness does not link"],
+    level_text="Proof: invariant over all histories and schedules of the slot-pool / accept-loop transition system; partial (runtime): which Rust code "
+               "paths end a connection task and that each drops its token is observed by the loopback histories, not proved.",
+    level_note="Trusted: Lean kernel; model of src/token_set.rs, src/accept.rs, spawn glue of src/lib.rs (modelled, not verified) tied by suites c12t (exact) and c12 (loopback).",
+)
+
+PROPS["C13"] = dict(
+    suites=["c13"],
+    shards={"c13": 4},
+    lean_modules=["ServlinVerif.Props.C13"],
+    audit="Audit/C13.lean",
+    rule="whole servers on loopback with their own permit: revocation injected with 0..45 ms random delay at each phase of a connection's life {no "
+         "connection, idle keep-alive, head partially received, handler running (gate), body upload in progress, response being written (6 MiB body, "
+         "client not reading), all max_conns slots occupied by idle connections for max_conns 1..4} and 14 (120) random mixes of 1..max_conns "
+         "connections in those phases; observed: no stopped signal before revocation, stopped signal within 2 s (3 s wait), connect() after the "
+         "signal refused, each connection's in-flight or next request answered completely (status + declared length) and the request after it not "
+         "served (closed). Non-trivial = at least one open connection at revocation.",
+    nontrivial=lambda tag, args, obs: args[1] != "-",
+    klass=lambda tag, args, obs: "c13:conns=%d:allslots=%s" % (len(args[1].replace("-", "")), "yes" if len(args[1].replace("-", "")) == int(args[0]) else "no"),
+    explanation="Model/Server.lean. C13_rank_decreases/C13_bounded: after revocation the accept loop takes at most 3 more steps of its own in every "
+                "schedule; C13_progress: in the repaired loop such a step is always enabled without anything from outside (no free slot, client or "
+                "connection ending needed); C13_never_early (stopped only after revocation; at most one straggler accept), C13_stopped_final; "
+                "connection task: C13_one_more (at most one more response after revocation, for every client behaviour), C13_inflight_completes. "
+                "C13_legacy_parked / C13_legacy_stuck: the pinned loop has no enabled step with all slots taken.",
+    trusted=["time is not modelled: 'bounded time' = bounded number of accept-loop steps none of which waits on anything but the 500 ms error sleep; the wall-clock bound is measured by the suite",
+             "permit crate: revocation wakes futures awaiting the permit; futures_lite::FutureExt::or polls both sides (cancellation-safe receive)"],
+    assumptions=["the stopped signal being sent after the listener is dropped is program order in src/lib.rs (observed by connect() after the signal)"],
+    level_text="Proof: rank/progress argument and invariants over all schedules of the accept-loop and connection transition systems; partial (runtime): "
+               "wake-ups by the permit crate and the executor are outside the model and observed by the loopback schedules.",
+    level_note="Trusted: Lean kernel; model of src/accept.rs and the permit checks of src/http_conn.rs (modelled, not verified) tied by suite c13.",
+)
+
 PROPS["C14"] = dict(
     suites=["c14", "c14r"],
     lean_modules=["ServlinVerif.Props.C14"],
